@@ -112,6 +112,8 @@ struct Codec {
     bool parseOnly = false;
     std::function<bool(const QDomElement &)> admits;
     std::function<QByteArray(const QDomElement &)> parseAndSerialize;
+    // serialization of a default-constructed object of the class (own output form with every optional field absent); may be null
+    std::function<QByteArray()> defaultOutput;
 };
 
 // ---- serialization helpers -----------------------------------------------------------------------------------------
@@ -171,7 +173,8 @@ Codec untyped(const char *name, std::vector<std::string> covers)
 {
     return { name, std::move(covers), false, false,
              [](const QDomElement &) { return true; },
-             [](const QDomElement &e) { T t; t.parse(e); return ser(t); } };
+             [](const QDomElement &e) { T t; t.parse(e); return ser(t); },
+             []() { T t; return ser(t); } };
 }
 // void parse(const QDomElement&) + static bool isXyz(const QDomElement&)
 template<typename T>
@@ -179,7 +182,8 @@ Codec typed(const char *name, std::vector<std::string> covers, bool (*is)(const 
 {
     return { name, std::move(covers), true, false,
              [is](const QDomElement &e) { return is(e); },
-             [](const QDomElement &e) { T t; t.parse(e); return ser(t); } };
+             [](const QDomElement &e) { T t; t.parse(e); return ser(t); },
+             []() { T t; return ser(t); } };
 }
 // bool parse(const QDomElement&): the return value is the type check
 template<typename T>
@@ -187,7 +191,8 @@ Codec boolParse(const char *name, std::vector<std::string> covers)
 {
     return { name, std::move(covers), true, false,
              [](const QDomElement &e) { T t; return t.parse(e); },
-             [](const QDomElement &e) { T t; t.parse(e); return ser(t); } };
+             [](const QDomElement &e) { T t; t.parse(e); return ser(t); },
+             []() { T t; return ser(t); } };
 }
 // static std::optional<T> fromDom(const QDomElement&)
 template<typename T>
@@ -195,7 +200,11 @@ Codec fromDom(const char *name, std::vector<std::string> covers)
 {
     return { name, std::move(covers), true, false,
              [](const QDomElement &e) { return T::fromDom(e).has_value(); },
-             [](const QDomElement &e) { auto t = T::fromDom(e); return t ? ser(*t) : QByteArray(); } };
+             [](const QDomElement &e) { auto t = T::fromDom(e); return t ? ser(*t) : QByteArray(); },
+             []() {
+                 if constexpr (std::is_default_constructible_v<T>) { T t {}; return ser(t); }
+                 else return QByteArray();
+             } };
 }
 // data-form based
 template<typename T>
@@ -207,7 +216,8 @@ Codec formBased(const char *name, std::vector<std::string> covers)
                  QXmppDataForm f; f.parse(e);
                  auto t = T::fromDataForm(f);
                  return t ? ser(t->toDataForm()) : QByteArray();
-             } };
+             },
+             []() { T t; return ser(t.toDataForm()); } };
 }
 
 // QXmppDataFormBase::fromDataForm is protected and QXmppPubSubMetadata has no public wrapper: reach it through a derived class
